@@ -524,8 +524,11 @@ func (d *domain) computeAssumes() {
 				for _, c := range n.Calls {
 					s := tokSet(c.Held)
 					if !c.Foreign {
+						lost := tokSet(c.Lost)
 						for t := range A[n] {
-							s[t] = true
+							if !lost[t] {
+								s[t] = true
+							}
 						}
 					} else {
 						s = map[tok]bool{}
@@ -593,7 +596,7 @@ func (d *domain) prune() {
 		var calls []edge
 		seen := map[string]bool{}
 		for _, c := range n.Calls {
-			k := c.Where + "|" + c.Callee.Key + "|" + fmt.Sprint(c.Held, c.Foreign)
+			k := c.Where + "|" + c.Callee.Key + "|" + fmt.Sprint(c.Held, c.Lost, c.Foreign)
 			if useful[c.Callee] && !seen[k] {
 				seen[k] = true
 				calls = append(calls, c)
@@ -711,8 +714,11 @@ func (d *domain) siteOK(n *fnNode, s *site, strict bool) bool {
 		if strict {
 			as = n.StrictAssumes
 		}
+		lost := tokSet(s.Lost)
 		for _, t := range as {
-			h[t] = true
+			if !lost[t] {
+				h[t] = true
+			}
 		}
 		for _, t := range s.Held {
 			h[t] = true
